@@ -1102,13 +1102,13 @@ def rule_md_wakeup(ctx):
     found = {}
     for start, (f0, w0) in (("timer", ("none", "undone")), ("forced", ("pending", "done"))):
         seen_bad.clear()
+        before = n_paths[0]
         for m, l in W.succ:
             if l != "exc":
                 step(m, f0, w0, False, frozenset())
         for rearmed in seen_bad:
             found[(start, rearmed)] = True
-    rep_paths = n_paths[0]
-    ctx.anchor(rep_paths >= 3, f"iteration paths of _md_synchronizer back to its wait ({rep_paths})")
+        ctx.anchor(n_paths[0] > before, f"an iteration of _md_synchronizer that returns to its wait after a {start} wake-up")
     for start in ("timer", "forced"):
         for rearmed in (False, True):
             bad = (start, rearmed) in found
